@@ -1029,11 +1029,16 @@ func init() {
 		ID:    "C03",
 		Level: "exploration",
 		Rule: "reader cases: a random ground-truth TTML model (0..6 paragraphs with begin/end, 0..5 styles whose parent links form an arbitrary forest incl. several children per parent and children declared before parents, 0..3 regions, subsets of the 24 tts:* attributes on styles/regions/paragraphs/spans, title, copyright, one of the five mapped languages with or without a sub-tag, frameRate in {absent,24,25,30,50,60}, tickRate in {absent,1,1000,90000,10^7}); every boundary is written in a random equivalent time-expression syntax (hh:mm:ss, hh:mm:ss.f{1,3}, hh:mm:ss:ff, N[.NNN]h/m/s, N[.NNN]ms, Nf, Nt) and its exact rational value is the oracle (exact for clock times, +-1 us where the library goes through float64); 3 renderings each (indentation none/2/4/tab placed next to <br/> and <p> only, br as <br/>, <br></br>, <BR/>, <br />, between spans or inside a span, bare text or spans, element prefix none/tt:/x:, tts:/ttp: prefixes or none, xml:id or id, xml:lang or lang, quote style, XML declaration, two divs, comments, CDATA). " +
-			"writer cases: models built from the public types (incl. white-space-only runs, TAB, U+0085, U+2028, ]]>, quotes, literal character references), written with indent in {\"\",\" \",4 spaces,tab,default}, decoded by the harness's encoding/xml token walk and by the library reader; styles (with parents), regions, metadata, per-rune style/attributes and ms times must equal the model. distinct_nontrivial = distinct documents compared.",
+			"writer cases: models built from the public types (incl. white-space-only runs, TAB, U+0085, U+2028, ]]>, quotes, literal character references), written with indent in {\"\",\" \",4 spaces,tab,default}, decoded by the harness's encoding/xml token walk and by the library reader; styles (with parents), regions, metadata, per-rune style/attributes and ms times must equal the model. sweep cases: every block of 256 code points (quick: the BMP and one block per other plane; thorough: all 4352 blocks) written as cue text, 32 characters to a cue, and read back unchanged (white space, controls and the markup characters of the format left out). distinct_nontrivial = distinct documents compared.",
 		Assumptions: []string{"paragraphs have begin and end; no nested spans, no dur/time containers; integer f and t values", "indentation is never placed between a text node and an inline span (XML white-space semantics would be ambiguous there); no LF/CR inside a run"},
-		Cases:       func(tier string) int64 { return 2 * n(tier) },
+		Cases:       func(tier string) int64 { return 2*n(tier) + sweepBlocks(tier) },
 		Anchors:     []string{"ReadFromTTML", "TTMLInDuration.UnmarshalText", "TTMLInDuration.duration", "TTMLInItems.UnmarshalXML", "newTTMLXmlDecoder", "TTMLInStyleAttributes.styleAttributes", "WriteToTTML", "TTMLOutDuration.MarshalText", "TTMLIn.metadata"},
 		Run: func(c *fw.Ctx) fw.Outcome {
+			if k := c.Idx - 2*n(c.Tier); k >= 0 {
+				return sweepCase(c, k, "ttml", "",
+					func(s *astisub.Subtitles, b *bytes.Buffer) error { return s.WriteToTTML(b) },
+					func(b []byte) (*astisub.Subtitles, error) { return astisub.ReadFromTTML(bytes.NewReader(b)) })
+			}
 			if c.Idx < n(c.Tier) {
 				return c03Reader(c)
 			}
